@@ -224,21 +224,32 @@ def firstSignChange : List α → Nat → Option Nat
   | d0 :: d1 :: ds, i => if sgn d0 ≠ sgn d1 then some i else firstSignChange (d1 :: ds) (i+1)
   | _, _ => none
 
-/-- `incubationTimeNonIsothermal(Z, currBeta, currTime, currTemp, betas, times, temperatures, matrix)`;
-the three lists have equal length ≥ 1 -/
-def tauNonIso (theta Z currBeta currTime currTemp : α) (betas times temps : List α) : α :=
-  let t0 := times.headD 0
-  let lhs := temps.map fun Ti => 1 / (theta * npow Z 2 * (currTemp / Ti))
-  let cs := cumsum 0 (stepArea betas times)
-  let rhs := match cs.getLast? with
-    | none => times.map fun ti => currBeta * (ti - t0)
-    | some l => cs ++ [l + currBeta * (currTime - t0)]
+/-- `LHS = 1 / (theta * Z**2 * (currTemp / temperatures))` -/
+def niLhs (theta Z currTemp : α) (temps : List α) : List α :=
+  temps.map fun Ti => 1 / (theta * npow Z 2 * (currTemp / Ti))
+
+/-- `RHS`: cumulative impingement, closed by the current rate (`cs` is the cumulative sum; empty for a
+history of one entry) -/
+def niRhs (currBeta currTime t0 : α) (times cs : List α) : List α :=
+  match cs.getLast? with
+  | none => times.map fun ti => currBeta * (ti - t0)
+  | some l => cs ++ [l + currBeta * (currTime - t0)]
+
+/-- intersection test on `diff = RHS − LHS` -/
+def niPick (currBeta currTime t0 : α) (times lhs rhs : List α) : α :=
   let diff := List.zipWith (fun r l => r - l) rhs lhs
   match firstSignChange diff 0 with
   | some i => times.getD i 0 - t0
   | none =>
     if 0 < diff.headD 0 then 0
     else (lhs.getLast?.getD 0) / currBeta - (rhs.getLast?.getD 0) / currBeta + (currTime - t0)
+
+/-- `incubationTimeNonIsothermal(Z, currBeta, currTime, currTemp, betas, times, temperatures, matrix)`;
+the three lists have equal length ≥ 1 -/
+def tauNonIso (theta Z currBeta currTime currTemp : α) (betas times temps : List α) : α :=
+  let t0 := times.headD 0
+  niPick currBeta currTime t0 times (niLhs theta Z currTemp temps)
+    (niRhs currBeta currTime t0 times (cumsum 0 (stepArea betas times)))
 
 /-! ### _calcNucleationSites -/
 
